@@ -42,6 +42,9 @@ class AbstractDenseTimeOnlineInterpreter(AbstractOnlineInterpreter, DenseTimeInt
             setattr(out, self.ast.out_var_field, rob)
 
         self.ast.var_object_dict = self.ast.var_object_dict.fromkeys(self.ast.var_object_dict, [])  #TODO I did not understand it.
+        if self.ast.out_var_field:
+            # the output is a field of a user object: keep the object, the next update writes into it
+            self.ast.var_object_dict[self.ast.out_var] = out
 
         return rob
 
